@@ -44,10 +44,10 @@ type Model struct {
 	Work     *ref.Node
 	WorkC    smap
 	Pins     map[int64]int
-	Written  map[string]bool  // keys touched (set or removed) in the working version
+	Written  map[string]bool           // keys touched (set or removed) in the working version
 	WrittenV map[int64]map[string]bool // per committed version: keys written (Set) during it, for C15
-	NormalV  map[int64]bool // per committed version: writes were ascending, one per key, effective (C15 hash clause)
-	wlog     []wentry // write log of the working version
+	NormalV  map[int64]bool            // per committed version: writes were ascending, one per key, effective (C15 hash clause)
+	wlog     []wentry                  // write log of the working version
 }
 
 type wentry struct {
@@ -292,4 +292,36 @@ func (m *Model) pairs(c smap) [][2]string {
 		out[i] = [2]string{k, c[k]}
 	}
 	return out
+}
+
+// Clone returns a deep copy (reference trees are immutable and shared).
+func (m *Model) Clone() *Model {
+	c := *m
+	c.Roots = make(map[int64]*ref.Node, len(m.Roots))
+	for k, v := range m.Roots {
+		c.Roots[k] = v
+	}
+	c.Conts = make(map[int64]smap, len(m.Conts))
+	for k, v := range m.Conts {
+		c.Conts[k] = v
+	}
+	c.WorkC = m.WorkC.clone()
+	c.Pins = map[int64]int{}
+	for k, v := range m.Pins {
+		c.Pins[k] = v
+	}
+	c.Written = map[string]bool{}
+	for k, v := range m.Written {
+		c.Written[k] = v
+	}
+	c.WrittenV = map[int64]map[string]bool{}
+	for k, v := range m.WrittenV {
+		c.WrittenV[k] = v
+	}
+	c.NormalV = map[int64]bool{}
+	for k, v := range m.NormalV {
+		c.NormalV[k] = v
+	}
+	c.wlog = append([]wentry{}, m.wlog...)
+	return &c
 }
